@@ -30,6 +30,7 @@ func WsStar() Item        { return wsStar }
 func Kw(s string) Item    { return kw(s) }
 func Sym(s string) Item   { return sy(s) }
 func Punct(s string) Item { return pu(s) }
+func Lit(s string) Item   { return lit(s) }
 
 func (l *LHS) subSortItems() []Item {
 	if len(l.SubSort) == 0 {
